@@ -43,7 +43,10 @@ def cases(tier, seed):
              # degenerate but accepted layouts: an area of size zero between / in front of / behind mapped neighbours,
              # writable neighbours without a hole, areas without registers
              ("16:8:rw:M|24:0:rw:CRW|24:4:w:M", 24), ("16:0:rw:M|16:8:rw:M|24:4:rw:M", None), ("12:4:rw:M|16:8:rw:M|24:0:rw:M|26:2:rw:M", None),
-             ("16:8:rw:M|24:4:rw:M", 24), ("12:4:rw:M|16:8:rw:M|24:6:rw:M", None)]
+             ("16:8:rw:M|24:4:rw:M", 24), ("12:4:rw:M|16:8:rw:M|24:6:rw:M", None),
+             # reserved areas: mapped, but neither memory nor callbacks (they read as zero) - between, in front of and behind others
+             ("16:8:rw:M|24:4:rw:C--|28:4:rw:M", 28), ("12:4:r:C--|16:8:rw:M", None), ("16:8:rw:M|26:4:rw:C--", None),
+             ("10:2:rw:M|12:4:rw:C--|16:8:rw:C--|24:4:rw:M", 24)]
     n = 0
     for aline, other in areas:
         for r in regs:
